@@ -236,6 +236,8 @@ class Vmap(AbstractBijection):
     def get_cond_shape(self, cond_ax):
         if self.bijection.cond_shape is None or cond_ax is None:
             return self.bijection.cond_shape
+        # Negative axes are relative to the vectorized (rank + 1) condition shape
+        cond_ax = range(len(self.bijection.cond_shape) + 1)[cond_ax]
         return (
             *self.bijection.cond_shape[:cond_ax],
             self.axis_size,
